@@ -184,7 +184,7 @@ PROPERTY_INFO = {
                 GEN_RULE + "non-trivial = at least one round trip or crash+restore of a non-empty world, or a mirrored lock-step operation; distinct = distinct operation lists",
                 ["roundtrip_with_nonempty_free_list", "lockstep_mirrored_op", "crash_restore_from_snapshot", "roundtrip_json", "roundtrip_tokens_compact", "roundtrip_tokens_readable", "roundtrip_tokens_compact_struct_as_seq", "roundtrip_json_value_sorted_keys"],
                 ["roundtrip_json", "roundtrip_tokens_compact", "roundtrip_tokens_readable", "roundtrip_tokens_compact_struct_as_seq", "roundtrip_json_value_sorted_keys", "roundtrip_with_nonempty_free_list", "roundtrip_of_empty_world",
-                 "lockstep_mirrored_op", "crash_restore_from_snapshot", "snapshot"], crash="C06"),
+                 "lockstep_mirrored_op", "crash_restore_from_snapshot", "snapshot", "deserialize_in_place", "world_has_more_than_65536_slots"], crash="C06"),
     "C10": info("exploration",
                 GEN_RULE + "non-trivial = a clone or clone_from followed by further operations on either side; distinct = distinct operation lists",
                 ["clone", "clone_from"],
